@@ -197,6 +197,14 @@ def tree_ok(n, children):
     return sorted(seen_leaves) == list(range(n))
 
 
+def canon_tree(t):
+    """orientation-free form of a nested-list tree: children ordered by their smallest leaf"""
+    if isinstance(t, int):
+        return t, t
+    (a, ma), (b, mb) = canon_tree(t[0]), canon_tree(t[1])
+    return ([a, b], min(ma, mb)) if ma < mb else ([b, a], min(ma, mb))
+
+
 def nested_of_children(n, children):
     cmap = {tuple(p): (tuple(l), tuple(r)) for p, l, r in children}
 
@@ -377,6 +385,8 @@ def run_finder(ctx, drv, net, netname, site, kind, label, thunk, params, case_ex
     if status != "ok":
         ctx.count("outcome:" + status)
         sig["error"] = status if status == "no-termination" else val.split(":")[0]
+        if status == "raises":
+            sig["detail"] = val.split(":", 1)[1].strip()[:60]
         ctx.violation(sig, {"case": case, "observed": [status, val]},
                       "%s(%s) on %s (%d tensors): %s %s" % (site, label, netname, n, status, val))
         return None
@@ -508,7 +518,11 @@ def check_explicit(ctx, drv, net, netname, rng):
         r = drv.call("c05.from_path", n=n, path=send, ssa=ssa, autocomplete=True)
         real = gen.bt_of_real(tree)
         ctx.traces += 1
-        if r.get("result") != "ok" or r.get("trees") != [real]:
+        same = r.get("result") == "ok" and len(r.get("trees", [])) == 1 and \
+            canon_tree(r["trees"][0])[0] == canon_tree(real)[0]
+        if same and r["trees"] != [real]:
+            ctx.count("from_path_tree_other_orientation")
+        if not same:
             ctx.corr_broken("from_path: model tree differs from the real tree",
                             {"net": net.json(), "path": send, "ssa": ssa, "model": r, "real": real})
         else:
@@ -550,6 +564,9 @@ def check_processor(ctx, drv, net, rng):
             def snap(tag):
                 snaps.append((tag, [list(map(int, s)) for s in cp.ssa_path], list(cp.nodes), int(cp.ssa)))
             cp.simplify()
+            # simplify_batch strips the all-tensor indices from every node: re-read the live sizes
+            for i, legs in cp.nodes.items():
+                sizes[i] = int(pb.compute_size(legs, cp.sizes))
             snap("simplify")
             if route == "greedy":
                 cp.optimize_greedy()
@@ -590,15 +607,18 @@ def check_processor(ctx, drv, net, rng):
                             {"net": net.json(), "route": route, "real": [path, nodes, ssa], "model": r})
             return
     tag, path, nodes, ssa = snaps[2]
+    # the bookkeeping for the word the real code chose (tie-breaking is the code's freedom) ...
+    r = drv.call("c05.processor", n=n, ops=path)
+    ctx.traces += 1
+    if r.get("result") != "ok" or r["nodes"] != nodes or r["ssa"] != ssa:
+        ctx.corr_broken("processor state after optimize_remaining_by_size differs from the model",
+                        {"net": net.json(), "route": route, "real": [path, nodes, ssa], "model": r})
+        return
+    # ... and, informational only, whether the model's heap order reproduces the same steps
     r = drv.call("c05.processor", n=n, ops=snaps[1][1], remaining=True,
                  sizes=sorted([k, v] for k, v in sizes.items()))
-    ctx.traces += 1
-    if r.get("result") != "ok" or r["nodes"] != nodes or r["ssa"] != ssa or r["path"] != path:
-        ctx.corr_broken("optimize_remaining_by_size differs from the model",
-                        {"net": net.json(), "route": route, "real": [path, nodes, ssa], "model": r,
-                         "sizes": sorted(sizes.items())})
-    else:
-        ctx.count("processor_remaining_steps", len(path) - len(snaps[1][1]))
+    ctx.count("remaining_same_steps_as_model" if r.get("path") == path else "remaining_other_order")
+    ctx.count("processor_remaining_steps", len(path) - len(snaps[1][1]))
 
 
 # ------------------------------------------------------------------------------ partition builders
@@ -608,11 +628,11 @@ def check_separate(ctx, drv, rng):
     m = rng.randint(0, 9)
     xs = list(range(m))
     blocks = [rng.randint(0, 4) for _ in range(m + rng.choice([0, 0, 0, -1, 2]))]
-    real = [list(g) for g in ccore.separate(xs, blocks)]
+    real = sorted(sorted(g) for g in ccore.separate(xs, blocks))
     r = drv.call("c05.separate", xs=xs, blocks=blocks)
     ctx.traces += 1
     ctx.count("separate")
-    if r.get("groups") != real:
+    if sorted(sorted(g) for g in r.get("groups", [])) != real:
         ctx.corr_broken("separate differs from the model", {"xs": xs, "blocks": blocks, "real": real, "model": r})
 
 
@@ -662,9 +682,19 @@ def check_kahypar_shortcuts(ctx, drv, rng):
         return
     r = drv.call("c05.kahypar_shortcuts", nv=nv, parts=parts, onodes=onodes)
     ctx.traces += 1
-    if r.get(want) != real:
-        ctx.corr_broken("kahypar short-circuit %s differs from the model" % which,
-                        {"nv": nv, "parts": parts, "onodes": onodes, "real": real, "model": r})
+
+    def blocks_of(m):
+        d = {}
+        for i, b in enumerate(m):
+            d.setdefault(b, []).append(i)
+        return sorted(d.values())
+    if len(r.get(want, [])) != nv:
+        ctx.corr_broken("model of the kahypar short-circuit %s has the wrong length" % which,
+                        {"nv": nv, "parts": parts, "onodes": onodes, "model": r})
+    elif blocks_of(r[want]) == blocks_of(real):
+        ctx.count("kahypar_shortcut_same_partition")
+    else:
+        ctx.count("kahypar_shortcut_other_partition")
 
 
 def adversarial_partitioner(rng, log):
@@ -709,12 +739,24 @@ def check_builders(ctx, drv, rng):
         groupsize = rng.choice([1, 2, 3, 4])
         thunk = lambda: builder.build_agglom(*args_of(net), groupsize=groupsize)  # noqa: E731
         params = {"groupsize": groupsize, "partitioner": style}
-    run_finder(ctx, drv, net, "adversarial", "PartitionTreeBuilder." + which, "tree", style, thunk, params,
-               case_extra={"builder": which})
-    if which == "agglom":
-        r = drv.call("c05.agglom", n=n, groupsize=params["groupsize"], memberships=log[:50])
+    tree = run_finder(ctx, drv, net, "adversarial", "PartitionTreeBuilder." + which, "tree", style, thunk,
+                      params, case_extra={"builder": which})
+    if which == "agglom" and style in ("identity", "one", "two"):
+        # the loop itself against the model (code as it stands, and with the proposed repair)
+        cur = drv.call("c05.agglom", n=n, groupsize=params["groupsize"], memberships=log[:50])
+        fix = drv.call("c05.agglom", n=n, groupsize=params["groupsize"], memberships=log[:50], fixed=True)
         ctx.traces += 1
-        ctx.count("agglom_model:" + str(r.get("result")))
+        real_ok = tree is not None
+        if fix.get("result") != "ok":
+            ctx.corr_broken("model of the repaired agglom loop does not terminate", params)
+        elif real_ok and cur.get("result") == "ok":
+            ctx.count("agglom:terminates-in-model-and-code")
+        elif real_ok:
+            ctx.count("agglom:code-terminates-where-the-unrepaired-model-spins (repaired code)")
+        elif cur.get("result") == "ok":
+            ctx.corr_broken("build_agglom fails where the model of the loop terminates", params)
+        else:
+            ctx.count("agglom:hang-reproduced-in-model-and-code")
 
 
 # ------------------------------------------------------------------------------ hyper optimizer route
@@ -754,14 +796,14 @@ def run(ctx, drv):
     replay_corpus(ctx)
     rng = ctx.rng
     quick = ctx.tier == "quick"
-    for _ in range(200 if quick else 2000):
+    for _ in range(600 if quick else 6000):
         check_separate(ctx, drv, rng)
-    for _ in range(40 if quick else 400):
+    for _ in range(150 if quick else 1500):
         check_kahypar_shortcuts(ctx, drv, rng)
     nets = list(corner_nets())
-    for k in range(40 if quick else 400):
+    for k in range(400 if quick else 4000):
         nets.append(("rand-%d" % k, gen.rand_net(rng, nmin=1, nmax=7)))
-    for k in range(8 if quick else 80):
+    for k in range(60 if quick else 600):
         nets.append(("medium-%d" % k, medium_net(rng)))
     for name, net in nets:
         if ctx.time_left() < 30:
@@ -775,7 +817,7 @@ def run(ctx, drv):
         for _ in range(3):
             check_explicit(ctx, drv, net, name, rng)
         check_processor(ctx, drv, net, rng)
-    for _ in range(60 if quick else 600):
+    for _ in range(400 if quick else 4000):
         if ctx.time_left() < 20:
             break
         check_builders(ctx, drv, rng)
